@@ -48,6 +48,7 @@ fn add_hist_counters(ctx: &mut Ctx, c: &hist::HistCounters) {
     ctx.add("sock_envelope_violations_sent", c.envelope_violations_sent);
     ctx.add("sock_messages_ending_in_empty_frame", c.messages_ending_in_empty_frame);
     ctx.add("sock_reconnects_under_the_same_identity", c.reconnects_same_identity);
+    ctx.add("sock_cooperative_yields", c.cooperative_yields);
     ctx.add("drops_total", c.drops_total);
     ctx.add("drops_with_partial_frame", c.drops_with_partial_frame);
     ctx.add("drops_after_waker_registered", c.drops_after_waker_registered);
@@ -467,6 +468,7 @@ impl Prop for C05 {
             ("sock_envelope_violations_sent", 20),
             ("sock_messages_ending_in_empty_frame", 100),
             ("sock_reconnects_under_the_same_identity", 20),
+            ("sock_cooperative_yields", 100),
         ]
     }
     fn case_timeout(&self) -> std::time::Duration {
